@@ -239,6 +239,13 @@ def check_routing(ctx, F):
         fl = flavour(F, b, "FullControlT")
         site = "FullControlT<%s>::updatePlan" % fl
         shapes = set()
+        # the local holding the region's plan, whatever it is called: `if (Plan x = plan(_regionId))` or a declaration initialised by plan(...)
+        plan_vars = set()
+        for x in walk(b["body"]):
+            vs = [x["cvar"]] if x.get("k") == "if" and x.get("cvar") else (x.get("vars", []) if x.get("k") == "decl" else [])
+            for v in vs:
+                if any(y.get("k") == "call" and "f" in y and F.fn(y["f"])["name"] == "plan" for y in walk(v.get("init") or {})):
+                    plan_vars.add("L:" + v["n"])
         for p in sym_paths(F, fid, 1):
             ctx.paths += 1
             toks = []
@@ -246,7 +253,7 @@ def check_routing(ctx, F):
                 if ev[0] == "assume" and "P:subStatus.result" in ev[2]:
                     m = re.search(r"==#(\d+)", ev[2])
                     toks.append(("r%s" % m.group(1) if m else "r?") + ("+" if ev[3] else "-"))
-                elif ev[0] == "assume" and ("L:p" in ev[2] or "operator bool" in ev[2]) and "it" not in ev[2]:
+                elif ev[0] == "assume" and (any(re.search(re.escape(v) + r"\b", ev[2]) for v in plan_vars) or "operator bool" in ev[2]) and "L:it" not in ev[2]:
                     toks.append("plan+" if ev[3] else "plan-")
                 elif ev[0] == "call" and ev[2] is not None:
                     n = F.fn(ev[2])["name"]
